@@ -65,6 +65,9 @@ class Path:
         self.fresh_counter = itertools.count()
         self.queries = 0
         self.solver_time = 0.0
+        # per back end: queries answered by the interval evaluator (no solver call), by a fresh
+        # non-incremental z3 instance, by the cvc5 binary (asked / decided unsat)
+        self.backends = {"interval": 0, "z3_fresh": 0, "cvc5_asked": 0, "cvc5_unsat": 0}
         self.unknowns = 0
         self.max_decisions = max_decisions
         self.notes = []  # free-form events (model divergences etc.)
@@ -90,6 +93,7 @@ class Path:
             self.queries = 0
             self.solver_time = 0.0
             self.unknowns = 0
+            self.backends = {k: 0 for k in self.backends}
             return True
         _, status = os.waitpid(pid, 0)
         if status != 0:
@@ -171,6 +175,7 @@ class Path:
         # consumes no decision index)
         t = truth_by_intervals(c, self.bounds)
         if t is not None:
+            self.backends["interval"] += 1
             return t
         i = self.pos
         self.pos += 1
@@ -260,14 +265,17 @@ class Path:
         r1 = s2.check()
         self.solver_time += _t.time() - t0
         self.queries += 1
+        self.backends["z3_fresh"] += 1
         if r1 == z3.unsat:
             self.notes.append("fresh z3 instance decided a query the incremental one left open")
             return "unsat", None
         if r1 == z3.sat:
             return "sat", s2.model()
         # second back end for queries z3 leaves open
+        self.backends["cvc5_asked"] += 1
         r2 = second_opinion(self.solver, z3.Not(c))
         if r2 == "unsat":
+            self.backends["cvc5_unsat"] += 1
             self.notes.append("cvc5 decided a query z3 left open")
             return "unsat", None
         return "unknown", None
@@ -477,6 +485,8 @@ def explore(run, prefix_limit=20000, timeout_ms=20000, seed=0, on_path=None, for
             stats["queries"] += p.queries
             stats["solver_time"] += p.solver_time
             stats["unknowns"] += p.unknowns
+            for k, v in p.backends.items():
+                stats[k] = stats.get(k, 0) + v
         work.extend(p.pending)
         if stats["paths"] + stats["dropped"] > prefix_limit:
             raise PathLimit("more than %d paths" % prefix_limit)
@@ -514,6 +524,7 @@ def _explore_fork(run, timeout_ms, seed, prefix_limit):
             rec["queries"] = p.queries
             rec["solver_time"] = p.solver_time
             rec["unknowns"] = p.unknowns
+            rec["backends"] = p.backends
             rec["child_failures"] = len(p.child_failures)
             with open(path, "a", encoding="utf-8") as f:
                 f.write(json.dumps(rec, default=repr) + "\n")
@@ -537,6 +548,8 @@ def _explore_fork(run, timeout_ms, seed, prefix_limit):
                 stats["queries"] += d.get("queries", 0)
                 stats["solver_time"] += d.get("solver_time", 0.0)
                 stats["unknowns"] += d.get("unknowns", 0)
+                for k, v in (d.get("backends") or {}).items():
+                    stats[k] = stats.get(k, 0) + v
                 crashed += d.get("child_failures", 0)
                 if d["kind"] == "path":
                     results.append(d["result"])
